@@ -36,6 +36,7 @@ from .common import (
     MAX_MAGICS,
     URL_STARTS,
     add_newline_to_expansion,
+    is_numbered_arg_name,
     nowiki_quote,
 )
 from .logging_utils import logger
@@ -1362,7 +1363,7 @@ class Wtp:
                             expand_args(args[0], argmap), parent, True
                         ).strip()
                         self.expand_stack.pop()
-                        if k.isascii() and k.isdigit() and int(k) > 0:
+                        if is_numbered_arg_name(k):
                             k = int(k)
                         else:
                             k = re.sub(r"\s+", " ", k).strip()
@@ -1588,7 +1589,7 @@ class Wtp:
                             # (but not around unnamed parameters)
                             k, arg = m2.groups()
                             is_named = True
-                            if k.isascii() and k.isdigit() and int(k) > 0:
+                            if is_numbered_arg_name(k):
                                 k = int(k)
                             else:
                                 self.expand_stack.append("ARGNAME")
